@@ -25,6 +25,8 @@ pub async fn poll_chunks(
     stats_tx: Option<Sender<PollStats>>,
     stop_rx: Receiver<bool>,
 ) -> Result<()> {
+    #[cfg(nexrad_verif)]
+    use crate::verif::Utc;
     use crate::aws::realtime::ChunkType;
     use log::debug;
 
